@@ -35,6 +35,9 @@ def literal_cases(ck):
         yield f"cp:U+{c:04X}", C(chr(c)), chr(c)
     for s in small_strings():
         yield f"str:{s!r}", C(s), s
+    # an escape followed by characters that could extend it: NUL + octal digits, \x / \u escapes + hex digits
+    for s in ["\x001", "\x0007", "a\x008b", "\x00\x001", "\x019", "\x7f0", "\x800", "\u01000", "\ud8000", "\U000100000", "\n1", "\\0", "\\x41"]:
+        yield f"str:{s!r}", C(s), s
     for s in ["", "plain", "tab\t", "\r\n", "\x00\x7f\x80\xff", "\u2028x", "日本語", "a" * 300, "'''", '"""', "\\n", "\\\\'"]:
         yield f"str:{s!r}", C(s), s
     for b in [b"", b"a", b"'", b'"', b"'\"", b"\\", b"\n\r\t\x00\xff", bytes(range(256))]:
@@ -48,6 +51,9 @@ def literal_cases(ck):
         yield f"complex:{z!r}", C(z), z
     for v in (None, True, False, ...):
         yield f"const:{v!r}", C(v), v
+    # equal but different literals after one another in one process (True / 1 / 1.0, False / 0 / 0.0 / 0j, 2 / 2.0)
+    for v in (1.0, 1, True, 1.0, 0j, 0.0, False, 0, 2.0, 2, -0.0 + 0.0):
+        yield f"equal-literal:{v!r}", ast.Tuple(elts=[C(v)], ctx=ast.Load()), (v,)
 
 
 def fstring_cases(ck):
@@ -104,6 +110,9 @@ def fstring_cases(ck):
         if s:
             yield f"fstr-lit:{s!r}", A.JoinedStr(values=[C(s), A.FormattedValue(value=N("x"), conversion=-1, format_spec=None)])
             yield f"fstr-nested-lit:{s!r}", A.JoinedStr(values=[A.FormattedValue(value=C(s), conversion=-1, format_spec=None)])
+    # an escape followed by characters that could extend it, as literal part and as format-spec text
+    for s in ["\x001", "\x0007", "a\x008b", "\x00\x001", "\x019", "\x7f0", "\x800", "\u01000", "\ud8000", "\U000100000", "\n1", "\\0", "\\x41"]:
+        yield f"fstr-escape-then-digit:{s!r}", A.JoinedStr(values=[C(s), A.FormattedValue(value=N("v"), conversion=-1, format_spec=A.JoinedStr(values=[C(s + ">3")]))])
 
 
 def same_value(a, b):
